@@ -3,6 +3,7 @@
 open Model
 open Sexp
 open Conv
+type string = Stdlib.String.t
 
 let layout (line : string) : string =
   let s = parse line in
